@@ -45,6 +45,13 @@ def cases(tier, seed):
         cells = [{"shape": rnd.choice(["box", "octa", "tetra"]), "dims": [rnd.randint(1, 2) for _ in range(3)], "k": 1,
                   "at": [base[a] + rnd.randint(-3, 3) for a in range(3)], "type": types[i]} for i in range(k)]
         add(cells, rnd.choice([1.0, 2.0 ** -17, 2.0 ** -27]), rnd.choice([1, 2]), rnd.choice([1, 2]))
+    # coarse faces: a cell whose triangles are several voxels long (an input mesh that has not been refined yet, or a minimum edge
+    # length that is small for the geometry), and a small cell dipping into the MIDDLE of one of its sides -- the voxels strictly
+    # between the corners of a face's padded box have to know the face as well
+    for at2, k1 in (([5, 5, 11.5], 12), ([6, 3, -1.5], 12), ([11.5, 5, 6], 12), ([7.5, 8, 15.5], 16), ([-1.5, 9, 4], 16)):
+        base = rnd.choice([[0, 0, 0], [-40, 25, 10]])
+        add([{"shape": "box", "dims": [1, 1, 1], "k": k1, "at": base, "type": 2},
+             {"shape": rnd.choice(["box", "octa"]), "dims": [1, 1, 1], "k": 1, "at": [base[a] + at2[a] for a in range(3)], "type": 4}], rnd.choice([1.0, 2.0 ** -20]), 1, 1)
     # a tissue with more than 65536 faces in total (a finely meshed bystander far away, listed FIRST, then two small cells in contact):
     # global face numbers, offsets and counters beyond 16 bits
     add([{"shape": "sphere", "level": 7, "dims": [1, 1, 1], "k": 1, "at": [2000, 0, 0], "type": 2},
